@@ -136,23 +136,24 @@ func showItem(i shed.Item) string {
 // ---- case representation ----------------------------------------------------------------
 
 type op struct {
-	K    string   `json:"op"`
-	X    int      `json:"x,omitempty"`     // index
-	Key  []byte   `json:"key,omitempty"`   // put/del/get/has/countfrom
-	Keys [][]byte `json:"keys,omitempty"`  // hasmulti/fill
-	Val  *V       `json:"val,omitempty"`   // put
-	B    bool     `json:"batch,omitempty"` // write goes through the open batch (opened on demand)
-	Pfx  []byte   `json:"pfx,omitempty"`   // first/last/iter
-	St   int      `json:"start,omitempty"` // iter: 0 = no StartFrom, n>0 = the (n-1 mod population)-th live key matching Pfx
-	Skip bool     `json:"skip,omitempty"`
-	Rev  bool     `json:"rev,omitempty"`
-	Mode string   `json:"mode,omitempty"` // iter: full|stop|err
-	At   int      `json:"at,omitempty"`
-	F    int      `json:"f,omitempty"` // field number (u64 fields 0,1)
-	I    uint64   `json:"i,omitempty"` // vector element
-	U    uint64   `json:"u,omitempty"` // value
-	S    []byte   `json:"s,omitempty"` // string field value (raw bytes)
-	Perm int      `json:"perm,omitempty"`
+	K     string   `json:"op"`
+	X     int      `json:"x,omitempty"`     // index
+	Key   []byte   `json:"key,omitempty"`   // put/del/get/has/countfrom
+	Keys  [][]byte `json:"keys,omitempty"`  // hasmulti/fill
+	Stale bool     `json:"stale,omitempty"` // fill: the items handed in already carry (outdated) value fields
+	Val   *V       `json:"val,omitempty"`   // put
+	B     bool     `json:"batch,omitempty"` // write goes through the open batch (opened on demand)
+	Pfx   []byte   `json:"pfx,omitempty"`   // first/last/iter
+	St    int      `json:"start,omitempty"` // iter: 0 = no StartFrom, n>0 = the (n-1 mod population)-th live key matching Pfx
+	Skip  bool     `json:"skip,omitempty"`
+	Rev   bool     `json:"rev,omitempty"`
+	Mode  string   `json:"mode,omitempty"` // iter: full|stop|err
+	At    int      `json:"at,omitempty"`
+	F     int      `json:"f,omitempty"` // field number (u64 fields 0,1)
+	I     uint64   `json:"i,omitempty"` // vector element
+	U     uint64   `json:"u,omitempty"` // value
+	S     []byte   `json:"s,omitempty"` // string field value (raw bytes)
+	Perm  int      `json:"perm,omitempty"`
 }
 
 type kase struct {
@@ -597,8 +598,14 @@ func run(c kase, strict bool, s *stats) (f *failure) {
 		case "fill":
 			items := make([]shed.Item, len(o.Keys))
 			all := true
+			stale := V{T: 987654321, D: []byte{0xde, 0xad}}
 			for j, k := range o.Keys {
 				items[j] = keyItem(x, k)
+				if o.Stale {
+					// items collected earlier and filled again: the stored value has to win over what they carry
+					items[j] = fullItem(x, k, stale)
+					s.add("fill-of-items-carrying-outdated-values")
+				}
 				if _, ok := w.m[x].Get(k); !ok {
 					all = false
 				}
@@ -610,8 +617,26 @@ func run(c kase, strict bool, s *stats) (f *failure) {
 					return fail("C19/fill", "%s index %s Fill(%x): %v", step, idxNames[x], o.Keys, err)
 				}
 				for j, k := range o.Keys {
-					if !eqItem(items[j], w.expItem(x, k)) {
-						return fail("C19/fill", "%s index %s Fill(%x)[%d] = %s want %s", step, idxNames[x], o.Keys, j, showItem(items[j]), showItem(w.expItem(x, k)))
+					want := w.expItem(x, k)
+					if o.Stale {
+						// documented Item.Merge semantics: a field the stored value leaves at its zero value keeps
+						// what the caller's item carried
+						st := fullItem(x, k, stale)
+						if want.AccessTimestamp == 0 {
+							want.AccessTimestamp = st.AccessTimestamp
+						}
+						if want.StoreTimestamp == 0 {
+							want.StoreTimestamp = st.StoreTimestamp
+						}
+						if want.Data == nil {
+							want.Data = st.Data
+						}
+						if want.Address == nil {
+							want.Address = st.Address
+						}
+					}
+					if !eqItem(items[j], want) {
+						return fail("C19/fill", "%s index %s Fill(%x)[%d] (stale=%v) = %s want %s", step, idxNames[x], o.Keys, j, o.Stale, showItem(items[j]), showItem(want))
 					}
 				}
 			} else {
@@ -1004,6 +1029,9 @@ func genCase(t *rapid.T) kase {
 					o.Keys = append(o.Keys, liveKey(o.X))
 				}
 			}
+			if o.K == "fill" {
+				o.Stale = rapid.Bool().Draw(t, "stale")
+			}
 		case "count":
 			o.X = rapid.IntRange(0, nIdx-1).Draw(t, "x")
 		case "first", "last":
@@ -1181,7 +1209,7 @@ func sweepCases() []kase {
 func TestC19_Model(t *testing.T) {
 	r := evid.Get(id)
 	evid.Finish(t, r)
-	r.SetRule("rapid: histories of 1..40 ops (thorough 100) over one shed.DB with three indexes created in a drawn order (1-byte key, 8-byte big-endian key, variable-length key of 1..3 bytes over {00,01,02,fe,ff}), two Uint64Fields, a Uint64Vector and a StringField; ops Put/Get/Has/HasMulti/Fill/Delete/Count/CountFrom/First/Last/Iterate(prefix?, StartFrom = a live key matching the prefix, SkipStartFromItem, Reverse, full|stop at k|error at k), field Put/Get/Inc/Dec, writes optionally through a batch (opened on demand; Commit | drop), reopen (Close + NewDB on the same backing store, indexes re-created in another order); backend = real in-memory leveldb kept alive across reopen (keepdrv) or, for a tenth of the histories, leveldb on a temp dir; plus a deterministic boundary sweep (6 creation orders x 3 populations x every prefix of length 0..2 over the alphabet: First/Last/Iterate forward/reverse/start). Oracle: one byte-ordered map per index, scalar models for fields; pending batch writes are invisible until Commit and applied in order then; full sweep (iterate forward+reverse, Count, all fields) after every mutation. Non-trivial = history has a reverse or prefix iteration or a dropped batch; distinct by hash of the history")
+	r.SetRule("rapid: histories of 1..40 ops (thorough 100) over one shed.DB with three indexes created in a drawn order (1-byte key, 8-byte big-endian key, variable-length key of 1..3 bytes over {00,01,02,fe,ff}), two Uint64Fields, a Uint64Vector and a StringField; ops Put/Get/Has/HasMulti/Fill (key-only items, or items already carrying outdated value fields)/Delete/Count/CountFrom/First/Last/Iterate(prefix?, StartFrom = a live key matching the prefix, SkipStartFromItem, Reverse, full|stop at k|error at k), field Put/Get/Inc/Dec, writes optionally through a batch (opened on demand; Commit | drop), reopen (Close + NewDB on the same backing store, indexes re-created in another order); backend = real in-memory leveldb kept alive across reopen (keepdrv) or, for a tenth of the histories, leveldb on a temp dir; plus a deterministic boundary sweep (6 creation orders x 3 populations x every prefix of length 0..2 over the alphabet: First/Last/Iterate forward/reverse/start). Oracle: one byte-ordered map per index, scalar models for fields; pending batch writes are invisible until Commit and applied in order then; full sweep (iterate forward+reverse, Count, all fields) after every mutation. Non-trivial = history has a reverse or prefix iteration or a dropped batch; distinct by hash of the history")
 
 	ws := witnesses()
 	for _, sig := range []string{sigLastNil, sigLastFF, sigSkipNoStart} {
